@@ -5,7 +5,7 @@ for spec in "$@"; do
   cd /repo || exit 2
   git status --short | grep -q . && { echo "/repo is not clean"; exit 2; }
   git apply "$patch" || { echo "patch does not apply: $patch"; continue; }
-  cd /verif
+  cd "${VERIF_DIR:-/verif}"
   echo "######## $patch"
   for p in ${props//,/ }; do
     out=$(./check $p quick 2>&1); rc=$?
@@ -14,4 +14,4 @@ for spec in "$@"; do
   done
   cd /repo && git checkout -- . && git status --short | head -3
 done
-cd /verif && ./check --build
+cd "${VERIF_DIR:-/verif}" && ./check --build
